@@ -112,7 +112,7 @@ _BIN = {ast.Add: lambda a, b: a + b, ast.Sub: lambda a, b: a - b, ast.Mult: lamb
         ast.RShift: lambda a, b: a >> b, ast.Pow: lambda a, b: a ** b}
 _CMP = {ast.Eq: lambda a, b: a == b, ast.NotEq: lambda a, b: a != b, ast.Lt: lambda a, b: a < b,
         ast.LtE: lambda a, b: a <= b, ast.Gt: lambda a, b: a > b, ast.GtE: lambda a, b: a >= b,
-        ast.In: lambda a, b: a in b, ast.NotIn: lambda a, b: a not in b}
+        ast.In: lambda a, b: a in b, ast.NotIn: lambda a, b: a not in b, ast.Is: lambda a, b: a is b, ast.IsNot: lambda a, b: a is not b}
 
 class Lit:
     """Evaluator for literal displays and closed pure expressions (no calls except a few pure
@@ -259,7 +259,10 @@ class Lit:
 
     def _opaque(self, n):
         if self.opaque is not None:
-            v = self.opaque(n)
+            if getattr(self.opaque, 'wants_lit', False):
+                v = self.opaque(n, self)
+            else:
+                v = self.opaque(n)
             if v is not None:
                 return v
         raise NotLiteral(ast.dump(n)[:80])
@@ -307,8 +310,17 @@ class ModuleFold:
             for tg in st.targets:
                 self.store(tg, v)
         elif isinstance(st, ast.Try):
-            for s in st.body:
-                self.stmt(s)
+            try:
+                for s in st.body:
+                    self.stmt(s)
+            except (KeyError, IndexError) as e:
+                for h in st.handlers:
+                    if h.type is None or ast.unparse(h.type) in (type(e).__name__, 'Exception', 'LookupError'):
+                        for s in h.body:
+                            self.stmt(s)
+                        break
+                else:
+                    raise
         elif isinstance(st, ast.AugAssign):
             cur = self.lit().ev(st.target)
             v = _BIN[type(st.op)](cur, self.lit().ev(st.value))
@@ -342,3 +354,61 @@ class ModuleFold:
                 self.store(t, x)
         else:
             raise NotLiteral('store target')
+
+class _Return(Exception):
+    def __init__(self, value):
+        self.value = value
+
+class FuncFold(ModuleFold):
+    """Fold a small pure function (Assign / AugAssign / If / Return) on concrete arguments."""
+    def stmt(self, st):
+        if isinstance(st, ast.Return):
+            raise _Return(self.lit().ev(st.value) if st.value is not None else None)
+        return super().stmt(st)
+
+    def call(self, fn, env):
+        self.env = dict(env)
+        try:
+            for st in fn.body:
+                if isinstance(st, ast.Expr) and isinstance(st.value, ast.Constant):
+                    continue
+                self.stmt(st)
+        except _Return as r:
+            return r.value
+        return None
+
+
+class ModFolder:
+    """Fold calls between the module-level functions of one module (pure functions over literals)."""
+    def __init__(self, repo, modname, extra=None):
+        self.repo, self.modname = repo, modname
+        self.mod = repo.mod(modname)
+        self.extra = extra or {}
+
+    def hook(self):
+        def f(n, lit):
+            if isinstance(n, ast.Name) and n.id in self.mod.funcs:
+                return ('f', n.id)
+            if isinstance(n, ast.Name) and n.id in self.extra:
+                return self.extra[n.id]
+            if isinstance(n, ast.Call) and isinstance(n.func, ast.Name):
+                try:
+                    target = lit.ev(n.func)
+                except NotLiteral:
+                    return None
+                if isinstance(target, tuple) and len(target) == 2 and target[0] == 'f':
+                    return self.call(target[1], [lit.ev(a) for a in n.args])
+            return None
+        f.wants_lit = True
+        return f
+
+    def call(self, name, args):
+        fn = self.mod.funcs[name]
+        params = [a.arg for a in fn.args.args]
+        defaults = fn.args.defaults
+        env = dict(zip(params, args))
+        for p, d in zip(params[len(params) - len(defaults):], defaults):
+            if p not in env:
+                env[p] = Lit(self.repo, self.modname).ev(d)
+        ff = FuncFold(self.repo, self.modname, {}, self.hook())
+        return ff.call(fn, env)
